@@ -116,12 +116,28 @@ def evaluate(case, out):
         for (c, E, p) in nen:
             js.append({"winner": c, "loser": "?", "assertion_type": "IRV_ELIMINATION", "already_eliminated": sorted(E)})
             asr[f"{c} v ? elim {' '.join(sorted(E))}"] = {"winner": c, "loser": "?", "proved": p}
-        auditfile = {"Audit": {"seed": 1}, "contests": {"339": {"choice_function": "IRV", "n_winners": 1, "winner": [case["winner"]],
-                                                                "candidates": list(cands), "assertions": asr, "assertion_json": js}}}
+        target = {"choice_function": "IRV", "n_winners": 1, "winner": [case["winner"]],
+                  "candidates": list(cands), "assertions": asr, "assertion_json": js}
+        contests_in_log = {"339": target}
+        explicit = len(js) % 2 == 0
+        if len(cands) >= 3:
+            # other contests in the same log, listed after the visualised one, with assertions of their own
+            decoy_js = [{"winner": cands[1], "loser": cands[0], "assertion_type": "WINNER_ONLY", "already_eliminated": ""},
+                        {"winner": cands[2], "loser": "?", "assertion_type": "IRV_ELIMINATION", "already_eliminated": [cands[0]]}]
+            decoy = {"choice_function": "IRV", "n_winners": 1, "winner": [cands[1]], "candidates": list(cands),
+                     "assertions": {"d1": {"winner": cands[1], "loser": cands[0], "proved": True}, "d2": {"winner": cands[2], "loser": "?", "proved": True}},
+                     "assertion_json": decoy_js}
+            contests_in_log["340"] = decoy
+            contests_in_log["1000"] = dict(decoy, assertion_json=list(reversed(decoy_js)))
+            out.cls("several-contests-in-log")
+        auditfile = {"Audit": {"seed": 1}, "contests": contests_in_log}
         candfile = {"List": [{"Id": int(c), "Description": f"cand {c}"} for c in cands]}
         try:
             with contextlib.redirect_stdout(io.StringIO()):
-                (aw, awn), nonw, WO, IRV = viz.parseAssertions(auditfile, candfile)
+                if explicit:
+                    (aw, awn), nonw, WO, IRV = viz.parseAssertions(auditfile, candfile, contest_id="339")
+                else:  # default: the contest with the smallest identifier
+                    (aw, awn), nonw, WO, IRV = viz.parseAssertions(auditfile, candfile)
         except Exception as e:  # noqa
             out.lib_exception("parseAssertions", e)
             return
